@@ -1,10 +1,103 @@
 import PoolModel.C18
+import PoolProofs.C18Lemmas
+/-! # C18 — headline theorems (handshake, backoff, switch; the client bookkeeping theorems follow below) -/
 namespace Pool.C18
 
+/-- **Handshake is verifiable.**  For every hash function `H`, account key, nonce and challenge: the commitment sent
+in step 1 opens to (key, revealed nonce) and the signature of step 3 is by the account key over
+`H(commitment ‖ challenge)` – exactly what the auctioneer recomputes (`serverVerify`).  A challenge field that is
+not 32 bytes long is zero-padded / truncated by the client (`copyN 32`), as the Go `copy` does. -/
 theorem C18_handshake_verifiable (H : Bytes → Bytes) (key nonce ch : Bytes) (ver : Nat) :
-    ∃ c sub, authCommit H key nonce ver = .commit c ver ∧ authSubscribe H key nonce ch = sub ∧
-      serverVerify H c (copyN 32 ch) sub = true := by
-  refine ⟨_, _, rfl, rfl, ?_⟩
-  simp [serverVerify, authSubscribe, commitAccount, authHash, concatAndHash]
+    ∃ c k n sig, authCommit H key nonce ver = .commit c ver ∧
+      authSubscribe H key nonce ch = .subscribe k n sig ∧
+      H (k ++ n) = c ∧ k = key ∧ n = nonce ∧
+      sig = ⟨key, H (c ++ copyN 32 ch)⟩ ∧
+      serverVerify H c (copyN 32 ch) (.subscribe k n sig) = true := by
+  refine ⟨_, _, _, _, rfl, rfl, rfl, rfl, rfl, rfl, ?_⟩
+  simp [serverVerify, commitAccount, authHash, concatAndHash]
+
+/-- a 32-byte challenge (what the auctioneer sends) is used unchanged -/
+theorem C18_challenge32_unchanged (ch : Bytes) (h : ch.length = 32) : copyN 32 ch = ch := by
+  simp [copyN, h, List.take_of_length_le (Nat.le_of_eq h)]
+
+example : serverVerify (fun b => b.reverse) (commitAccount (fun b => b.reverse) [2, 1] [9])
+    (copyN 32 [7]) (authSubscribe (fun b => b.reverse) [2, 1] [9] [7]) = true := by decide
+
+/-- **Backoff shape (reconnect / any positive start).**  Guard: `0 < init ≤ max < 2^62` ns (no int64 overflow).  If
+the first `fails < numRetries` attempts fail, the waits requested are `min(init·2^i, max)` for `i = 0..fails`, the
+connect succeeds, and the logged backoffs are the same sequence from `i = 1`. -/
+theorem C18_backoff_shape (initB minB maxB : Int) (numRetries fails : Nat)
+    (hi : 0 < initB) (him : initB ≤ maxB) (hmax : maxB < 2 ^ 62) (hf : fails < numRetries) :
+    connect initB minB maxB numRetries fails =
+      ⟨(List.range (fails + 1)).map (fun i => min (initB * 2 ^ i) maxB),
+       (List.range fails).map (fun i => min (initB * 2 ^ (i + 1)) maxB), true⟩ := by
+  have : numRetries ≠ 0 := by omega
+  simp only [connect, this, if_false]
+  exact connLoop_shape hmax fails numRetries initB hi him hf
+
+/-- **Backoff shape, first connect (start 0).**  Guard `0 < min ≤ max < 2^62`.  No wait before the first attempt; then
+`min, 2·min, 4·min, …` capped at `max`. -/
+theorem C18_backoff_shape_first (minB maxB : Int) (numRetries fails : Nat)
+    (h0 : 0 < minB) (h1 : minB ≤ maxB) (hmax : maxB < 2 ^ 62) (hf : fails < numRetries) :
+    (connect 0 minB maxB numRetries fails).waits = (List.range fails).map (fun i => min (minB * 2 ^ i) maxB) ∧
+    (connect 0 minB maxB numRetries fails).ok = true := by
+  have : numRetries ≠ 0 := by omega
+  obtain ⟨r, rfl⟩ : ∃ r, numRetries = r + 1 := ⟨numRetries - 1, by omega⟩
+  cases fails with
+  | zero => simp [connect, connLoop]
+  | succ f =>
+    have := connLoop_shape (minB := minB) hmax f r minB h0 h1 (by omega)
+    simp [connect, connLoop, nextBackoff_zero h0 h1, this]
+
+example : connect 1000 1000 5000 32767 4 = ⟨[1000, 2000, 4000, 5000, 5000], [2000, 4000, 5000, 5000], true⟩ := by
+  decide
+example : (connect 0 1000 5000 32767 4).waits = [1000, 2000, 4000, 5000] := by decide
+
+/-- outside the guard the doubling can wrap: with `max ≥ 2^62` a backoff of `2^62` ns doubles to `-2^63`, which is
+"waited" as zero time – the guard of `C18_backoff_shape` is needed -/
+theorem C18_backoff_guard_needed :
+    (connect (2 ^ 62) 1 (2 ^ 63 - 1) 3 1).backoffs = [-(2 ^ 63)] := by decide
+
+/-- **Switch: nothing lost, nothing duplicated, routed by the divert state at processing time.**  For every schedule
+of the atomic steps (sends by any number of goroutines, `run`'s receive / lock / hand-over, `Divert`, `Restore`, in
+any interleaving; disabled steps are skipped) started from a fresh switch:
+1. the errors sent are, as a multiset, exactly those still inside the switch plus those handed to a target;
+2. every error handed over went to a temporary channel iff `diverted` was set when `run` took the mutex for it;
+3. once nothing is inside the switch, the delivered errors are a permutation of the sent ones. -/
+theorem C18_switch_no_loss (as : List Act) :
+    let s := ({} : Switch).run as
+    List.Perm (sentOf as) (s.inside ++ s.delivered.map (·.1)) ∧
+    (∀ x ∈ s.delivered, (∃ c, x.2.1 = Target.temp c) ↔ x.2.2 = true) ∧
+    (s.inside = [] → List.Perm (sentOf as) (s.delivered.map (·.1))) := by
+  intro s
+  have hp : List.Perm (sentOf as) (s.inside ++ s.delivered.map (·.1)) := by
+    rw [List.perm_iff_count]
+    intro x
+    have := run_count as {} x
+    simp only [dl, Switch.inside] at this ⊢
+    simp only [s]
+    simp at this ⊢
+    omega
+  refine ⟨hp, (swInv_run as {} swInv_init).2.2, ?_⟩
+  intro he
+  simpa [he] using hp
+
+/-- the switch itself never blocks an error: whenever something is inside, one of `run`'s own steps is enabled (the
+only thing it ever waits for is the reader of the chosen target channel, modelled by `deliver`) -/
+theorem C18_switch_progress (s : Switch) (h : s.inside ≠ []) :
+    (s.step (.recv 0)).isSome ∨ (s.step .lock).isSome ∨ (s.step .deliver).isSome := by
+  cases hi : s.inflight with
+  | some x => right; right; simp [Switch.step, hi]
+  | none =>
+    cases hh : s.held with
+    | some e => right; left; simp [Switch.step, hi, hh]
+    | none =>
+      left
+      cases hp : s.pending with
+      | nil => simp [Switch.inside, hi, hh, hp] at h
+      | cons a l => simp [Switch.step, hi, hh, hp]
+
+example : (({} : Switch).run [.send 1, .divert 7, .recv 0, .lock, .restore, .send 2, .deliver, .restore, .recv 0,
+    .lock, .deliver]).delivered = [(1, .temp 7, true), (2, .main, false)] := by decide
 
 end Pool.C18
